@@ -6,7 +6,7 @@ IDS="$@"; [ -z "$IDS" ] && IDS=$(ls benign | grep -E "^C[0-9]+-" | sort)
 mkdir -p /tmp/bnrun; 
 total=0; silent=0
 for id in $IDS; do
-  [ -d /tmp/bn/$id ] || { mkdir -p /tmp/bn/$id && (cd /repo && git archive HEAD | tar -x -C /tmp/bn/$id) && (cd /tmp/bn/$id && patch -p1 -s < /verif/benign/$id/patch.diff); }
+  [ -d /tmp/bn/$id ] || { mkdir -p /tmp/bn/$id && (cp -a /tmp/headcopy/. /tmp/bn/$id/ 2>/dev/null || (cd /repo && git archive HEAD | tar -x -C /tmp/bn/$id)) && (cd /tmp/bn/$id && patch -p1 -s < /verif/benign/$id/patch.diff); }
   mkdir -p /tmp/bnrun/$id; cp KNOWN_FINDINGS.jsonl /tmp/bnrun/$id/
   for P in $(seq -f "C%02g" 1 20); do
     ( ${OBFSVET:-bin/obfsvet} -prop $P -tier quick -repo /tmp/bn/$id -verif /tmp/bnrun/$id > /tmp/bnrun/$id/$P.log 2>&1; echo $? > /tmp/bnrun/$id/$P.rc ) &
